@@ -60,7 +60,7 @@ func (x *Exec) step(st *State, in ssa.Instruction) {
 	case *ssa.FieldAddr:
 		xv := x.eval(st, in.X)
 		a := x.addrOf(st, xv, in.X.Type(), in.Pos())
-		na := &Addr{Own: a.Own, Cell: a.Cell, Ref: a.Ref, Elem: a.Elem}
+		na := &Addr{Own: a.Own, Cell: a.Cell, Ref: a.Ref, Elem: a.Elem, GlobalArr: a.GlobalArr}
 		na.Path = append(append([]PathElem(nil), a.Path...), PathElem{Field: in.Field})
 		if a.Ref != nil {
 			x.checkNonNil(st, a.Ref, in.Pos())
@@ -77,7 +77,7 @@ func (x *Exec) step(st *State, in ssa.Instruction) {
 			f.regs[in] = &Addr{Own: xv, Elem: xv.T, Path: []PathElem{{IsIndex: true, Index: idx}}}
 		case *Addr:
 			// pointer to array held in a cell or heap object
-			na := &Addr{Own: xv.Own, Cell: xv.Cell, Ref: xv.Ref, Elem: xv.Elem}
+			na := &Addr{Own: xv.Own, Cell: xv.Cell, Ref: xv.Ref, Elem: xv.Elem, GlobalArr: xv.GlobalArr}
 			na.Path = append(append([]PathElem(nil), xv.Path...), PathElem{IsIndex: true, Index: idx})
 			f.regs[in] = na
 		case *Term:
